@@ -116,7 +116,14 @@ pub struct Case {
 /// Pool key `i` under naming scheme `style`: safe single-component file names,
 /// unique per index, never ending in ".tmp", and no two of them share a stem
 /// (the disk cache's temporary file is `<stem>.tmp`).
+/// Spellings a file-name sanitiser would fold together; neighbours 2j / 2j+1 of the pool are a pair.
+const CONFUSABLE: [(&str, &str); 6] = [("ribbit:us_wow:versions", "ribbit:us:wow:versions"), ("a:b", "a_b"), ("p|q", "p_q"), ("s*t", "s_t"), ("q?r", "q_r"), ("Key", "key")];
+
 pub fn key_name(style: u8, i: usize) -> String {
+    if style >= 240 {
+        let (a, b) = CONFUSABLE[(i / 2 + usize::from(style - 240)) % CONFUSABLE.len()];
+        return (if i % 2 == 0 { a } else { b }).to_string();
+    }
     match style % 6 {
         0 => format!("k{i}"),
         1 => format!("ribbit:us:ep{i}"),
